@@ -41,7 +41,12 @@ func c17Hooks(xr *xssRoots, name string, hooks *absint.Hooks) {
 			prevStore(e, st, fr, store, p, v)
 		}
 		if fa, ok := store.Addr.(*ssa.FieldAddr); ok && fieldName(fa) == lenFld {
-			e.SetCell(st, ghostScan, "lenFrame", absint.IntV{L: absint.K(int64(fr.ID()))})
+			// a token emitted through a helper (`h.emit(type, n)`) belongs to the state that called it
+			owner := fr
+			for owner.Caller() != nil && xr.g.Nodes[owner.Fn()] == nil {
+				owner = owner.Caller()
+			}
+			e.SetCell(st, ghostScan, "lenFrame", absint.IntV{L: absint.K(int64(owner.ID()))})
 		}
 	}
 	hooks.OnSearch = func(e *absint.Engine, st *absint.State, fr *absint.Frame, call *ssa.Call, prev *absint.Hit, cur absint.Hit) {
@@ -242,6 +247,8 @@ func checkC17(c *Ctx) *core.Result {
 	if n < 100 {
 		r.Fail("vacuity", "-", "HTML token obligations", "-", fmt.Sprintf("only %d obligations generated (expected ≥ 100)", n))
 	}
+	// the quoted start contexts: own quote byte, nothing consumed before the search at pos 0
+	quotedValueRules(c.P, env.a, g, r, "T-quote", "T-skip")
 	// every forward search on the input inside a state function must have been judged
 	searches := 0
 	for fn := range g.Nodes {
@@ -276,7 +283,7 @@ func checkC17(c *Ctx) *core.Result {
 	// T-count: steps that emit without moving the cursor must not form a cycle
 	tcount(xr, r, c)
 	r.Extra["roots"] = xr.describe()
-	r.Explanation = e3Explain + " C17 analyses every HTML state function as a root from an arbitrary tokenizer state satisfying the interface invariant plus per-state entry facts inferred Houdini-style over all transitions (pos ≥ 1, pos < len, prevEnd ≤ pos, prevEnd < pos). At every return that reports a token: T-span (token inside the input), T-order (token starts at or after the end of the previous token), and for tokens produced by a terminator search O-first (the first search starts at the token start), O-resume (after a rejected candidate the search resumes at candidate + 1), O-end (the token ends exactly at the accepted terminator, or at end of input), O-eof (giving up a found candidate needs proof that fewer bytes remain than the shortest accepted terminator of that search, or that the bytes behind the candidate were examined up to the end of the input), O-next (cursor behind the terminator), O-match (closing quote = opening quote where known). T-count: the transitions that emit a token without advancing the cursor form an acyclic graph, so the number of tokens is at most (L+1)·(|s|+1) with L the longest such chain. NOT decided: the exact |s|+1 constant, the content of multi-byte terminators (which bytes follow the first), the NUL tolerance of comments."
+	r.Explanation = e3Explain + " C17 analyses every HTML state function as a root from an arbitrary tokenizer state satisfying the interface invariant plus per-state entry facts inferred Houdini-style over all transitions (pos ≥ 1, pos < len, prevEnd ≤ pos, prevEnd < pos). At every return that reports a token: T-span (token inside the input), T-order (token starts at or after the end of the previous token), and for tokens produced by a terminator search O-first (the first search starts at the token start), O-resume (after a rejected candidate the search resumes at candidate + 1), O-end (the token ends exactly at the accepted terminator, or at end of input), O-eof (giving up a found candidate needs proof that fewer bytes remain than the shortest accepted terminator of that search, or that the bytes behind the candidate were examined up to the end of the input), O-next (cursor behind the terminator), O-match (closing quote = opening quote where known). T-count: the transitions that emit a token without advancing the cursor form an acyclic graph, so the number of tokens is at most (L+1)·(|s|+1) with L the longest such chain. T-quote / T-skip (path rules): each quoted start state hands its own quote byte to the common quoted-value lexer, and that lexer advances the cursor before its terminator search under `pos > 0` only, so the value token of a quoted start context has offset 0 and ends at the first matching quote. NOT decided: the exact |s|+1 constant, the content of multi-byte terminators (which bytes follow the first), the NUL tolerance of comments."
 	r.Trusted = []string{"go/ssa", "E3 transfer functions and library models (search results)", "in-checker simplex", "state graph extraction (C13)"}
 	return r
 }
